@@ -76,6 +76,8 @@ def class_attr_const(ctx: Ctx, c: Class, attr: str) -> Optional[str]:
             elif isinstance(st, ast.AnnAssign) and isinstance(st.target, ast.Name) and st.value is not None:
                 tgt, val = st.target.id, st.value
             if tgt == attr:
+                if isinstance(val, ast.Call) and len(val.args) == 1 and not val.keywords:
+                    val = val.args[0]   # `_ref = ProtocolRef("local.string")`
                 return const_str(val)
         init = k.methods.get("__init__")
         if init is not None:
